@@ -16,6 +16,7 @@ package controllerv1
 
 //@ func writeMatrix [C15]
 //@   flag checks=-assert
+//@   at strconv.FormatFloat plain-decimal-shortest-exact: arg1 == 102 && arg2 == -1 && arg3 == 64
 //@   at ReturnStream complete-document: jsDone(stream)
 //@   at ReturnStream every-point-once: stream.g_numCount == len(s.Points)
 //@   at ReturnStream timestamps-exact: forall k int :: 0 <= k && k < len(s.Points) ==> stream.g_nums[k] == real(s.Points[k].T) / 1000
@@ -39,6 +40,7 @@ package controllerv1
 
 //@ func writeVector [C15]
 //@   flag checks=-assert
+//@   at strconv.FormatFloat plain-decimal-shortest-exact: arg1 == 102 && arg2 == -1 && arg3 == 64
 //@   at ReturnStream complete-document: jsDone(stream)
 //@   at ReturnStream timestamp-exact: stream.g_numCount == 1 && stream.g_nums[0] == real(s.T) / 1000
 //@   loop 2:
